@@ -1315,6 +1315,22 @@ func (g *G) varExpr(depth int, call bool) *Node {
 				// ->$p, ->$$p: the property name taken from a variable; PHP 5 binds dimensions that follow to the
 				// name ($o->$p[0] is $o->{$p[0]}), PHP 7 to the fetch: the chain ends here outside PHP 7
 				pv := g.indirectVar(2)
+				if !g.php7() && !g.O.Common && !g.O.Formatter && g.R.Chance(1, 2) {
+					// the PHP 5 reading written out: $o->$p[0] is $o->{$p[0]}, $o->$h[$k](..) calls $o->{$h[$k]}(..)
+					var nm *Node = g.simpleVar()
+					for k, m := 0, g.R.Range(1, 2); k < m; k++ {
+						d := g.exprTop(depth + 1)
+						nm = g.dim(nm, d, true)
+					}
+					if call && g.R.Chance(1, 3) {
+						as, ps := g.args(depth)
+						base = &Node{Kind: "ExprMethodCall", Kids: []Kid{one("Var", base), one("Method", nm), list("Args", as)}, Parts: parts(base, t("->"), nm, ps), Prec: 100, Flags: FUVS}
+					} else {
+						base = &Node{Kind: "ExprPropertyFetch", Kids: []Kid{one("Var", base), one("Prop", nm)}, Parts: parts(base, t("->"), nm), Prec: 100, Flags: FUVS}
+					}
+					i = n
+					continue
+				}
 				base = &Node{Kind: "ExprPropertyFetch", Kids: []Kid{one("Var", base), one("Prop", pv)}, Parts: parts(base, t("->"), pv), Prec: 100}
 				if !g.php7() {
 					i = n
